@@ -152,7 +152,7 @@ func makeFeeds(g *ref.Grammar, r *rng.R, sz feedSizes) []feedInfo {
 		if sz.Sentences == 0 {
 			break
 		}
-		st := toToks(g.RandomSentence(r.Sub("long", i), budget))
+		st := toToks(g.LongSentence(r.Sub("long", i), budget))
 		if len(st) >= 100 && len(st) <= 6000 {
 			// a sentence by construction (it was derived from the start symbol); Earley on it would be cubic for
 			// ambiguous grammars, so it is not consulted, and no mutants or prefixes are made from it
@@ -338,9 +338,9 @@ func prepareBatch(ctx *Ctx, res *Result, in *Input, variants []wl.Variant, epi i
 			res.Count("ms_make_feeds", int(time.Since(tf).Milliseconds()))
 			// scale: one very long sentence and a damaged copy, classified by a reference LR run over the tables of this
 			// generation (Earley is quadratic); only for conflict-free grammars, where table and language coincide
-			if sc.Auto != nil && sc.conflictFree() && (si%3 == 0 || ctx.Thorough()) && !sz.NoVeryLong {
+			if sc.Auto != nil && sc.conflictFree() && (si == 0 || ctx.Thorough()) && !sz.NoVeryLong {
 				rr := r.Sub("verylong", si)
-				syms := sc.G.RandomSentence(rr, 14000)
+				syms := sc.G.LongSentence(rr, 14000)
 				if len(syms) >= 2000 && len(syms) <= 40000 {
 					toks := make([]ref.Tok, len(syms))
 					for i, x := range syms {
@@ -520,10 +520,16 @@ func grammarsForParsers(ctx *Ctx, r *rng.R, n int, wantConflictFree bool) []*wl.
 		var s *wl.Spec
 		shared := false
 		pick := rr.Intn(7)
+		if len(out) == 0 {
+			pick = 200 // the first grammar of every batch is one whose sentences nest or chain deeply (scale probes)
+		}
 		if rr.Chance(1, 40) {
 			pick = 100
 		}
 		switch pick {
+		case 200:
+			deep := []string{"right-rec", "lr0-paren", "slr-expr", "json-like", "default-start-nested", "left-rec"}
+			s = wl.VaryClassic(wl.ClassicByName(deep[rr.Intn(len(deep))]), rr.Sub("v"))
 		case 100:
 			// scale: about a thousand parser states, packed vectors of tens of kilobytes of text
 			s = wl.ManyRulesN(rr.Sub("huge"), rr.Range(300, 500))
